@@ -400,8 +400,8 @@ package leader
 //@   requires C09.nil_ctx: ctx != nil
 //@   ghost mayCancelElection Bool = true
 //@   on store kvElection.ctx set e.stopped = false
-//@   ensures C19+C09.refused_start_has_no_effect: result == ErrAlreadyStarted ==> calls(cancel) == 0 && spawns(Start$1) == 0
-//@   ensures C09.start_spawns_one_round: result == nil ==> spawns(Start$1) == 1
+//@   ensures C19+C09.refused_start_has_no_effect: result == ErrAlreadyStarted ==> calls(cancel) == 0 && scalls(attemptAcquire) == 0
+//@   ensures C09.start_spawns_one_round: result == nil ==> scalls(attemptAcquire) == 1
 //@   on call ConnectionMonitor.OnDisconnect as c assert C11.wires_disconnect_handler: isfunc(c.arg0, "disconnectHandler.handleDisconnect")
 //@   on call ConnectionMonitor.OnReconnect as c assert C11.wires_reconnect_handler: isfunc(c.arg0, "kvElection.handleReconnect")
 //@   ensures C11.monitor_wired: result == nil && e.connectionMonitor != nil ==> calls(ConnectionMonitor.Start) == 1 && calls(ConnectionMonitor.OnDisconnect) == 1 && calls(ConnectionMonitor.OnReconnect) == 1
@@ -489,11 +489,11 @@ package leader
 //@   on lock kvElection.mu set stateL = e.state
 //@   on lock kvElection.mu set ctxNilL = e.ctx == nil
 //@   on store kvElection.isLeader as s when s.value set claimed = true
-//@   ensures C08.promote_once: spawns(becomeLeader$3) == ((claimed && promoteSet) ? 1 : 0)
+//@   ensures C08.promote_once: scalls(onPromote) == ((claimed && promoteSet) ? 1 : 0)
 //@   ensures C08.promotion_goroutine_calls_back: scalls(onPromote) == ((claimed && promoteSet) ? 1 : 0)
-//@   ensures C09.no_promote_after_stop: stateL == "STOPPED" || ctxNilL ==> !claimed && spawns(becomeLeader$1) == 0 && spawns(becomeLeader$2) == 0 && spawns(becomeLeader$3) == 0
-//@   ensures C02.claims_when_running: stateL != "STOPPED" && !ctxNilL && !wasLeaderAtLock ==> claimed && spawns(becomeLeader$1) == 1 && spawns(becomeLeader$2) == 1
-//@   ensures C08.no_second_term_on_top_of_a_term: wasLeaderAtLock ==> !claimed && spawns(becomeLeader$1) == 0 && spawns(becomeLeader$2) == 0 && spawns(becomeLeader$3) == 0
+//@   ensures C09.no_promote_after_stop: stateL == "STOPPED" || ctxNilL ==> !claimed && scalls(heartbeatLoop) == 0 && scalls(validationLoop) == 0 && scalls(onPromote) == 0
+//@   ensures C02.claims_when_running: stateL != "STOPPED" && !ctxNilL && !wasLeaderAtLock ==> claimed && scalls(heartbeatLoop) == 1 && scalls(validationLoop) == 1
+//@   ensures C08.no_second_term_on_top_of_a_term: wasLeaderAtLock ==> !claimed && scalls(heartbeatLoop) == 0 && scalls(validationLoop) == 0 && scalls(onPromote) == 0
 
 // becomeFollower() and settleAsFollower() are thin unexported wrappers: always inlined into
 // their callers (where the caller's justification is known), never verified on their own.
@@ -519,10 +519,10 @@ package leader
 //@   on call termCancel set termCancelled = true
 //@   ghost wrArmed Bool = false
 //@   on store kvElection.watcherRunning as s when !inspawn() set wrArmed = s.value
-//@   on spawn demote$1 assert C13+C06.one_watch_loop_at_a_time: !watcherSeen && wrArmed
-//@   ghost wrCleared Bool = false
+//@   on call watchLoop assert C13+C06.one_watch_loop_at_a_time: inspawn() && !watcherSeen && wrArmed
+//@   ghost spawned wrCleared Bool = false
 //@   on store kvElection.watcherRunning as s when inspawn() set wrCleared = !s.value
-//@   on ret demote$1 assert C06+C18.watcher_flag_cleared_on_exit: wrCleared
+//@   ensures C06+C18.watcher_flag_cleared_on_exit: scalls(watchLoop) == 1 ==> wrCleared
 //@   on unlock kvElection.mu assert C03.claim_cleared_at_unlock: !unlessLeader ==> !e.isLeader
 //@   on store kvElection.isLeader assert C07.settling_never_clears_a_claim: unlessLeader ==> !cleared
 //@   ensures C07.settling_reports_nothing_cleared: unlessLeader ==> !result
@@ -530,8 +530,8 @@ package leader
 //@   ensures C19.cancelled_on_demotion: cleared && !unlessLeader ==> termCancelled
 //@   ghost stateL Int = 0
 //@   on lock kvElection.mu set stateL = e.state
-//@   ensures C06.failed_round_rearms: stateL != "STOPPED" && !(unlessLeader && cleared) && ctxSeen && !watcherSeen ==> spawns(demote$1) == 1
-//@   ensures C09.stopped_stays_stopped: stateL == "STOPPED" ==> spawns(demote$1) == 0 && calls(recordTransition) == 0
+//@   ensures C06.failed_round_rearms: stateL != "STOPPED" && !(unlessLeader && cleared) && ctxSeen && !watcherSeen ==> scalls(watchLoop) == 1
+//@   ensures C09.stopped_stays_stopped: stateL == "STOPPED" ==> scalls(watchLoop) == 0 && calls(recordTransition) == 0
 
 //@ func (e *kvElection) Stop()
 //@   tags C09 C08 C18 C01 C20
@@ -635,7 +635,7 @@ package leader
 
 //@ func (e *kvElection) validateToken(ctx)
 //@   tags C04 C13 C01
-//@   flag spawn_exempt:validateToken$1
+//@   flag spawn_exempt:@KeyValue.Get
 //@   requires C09.nil_ctx: ctx != nil
 //@   ghost tok Int = 0
 //@   ghost ntok Int = 0
@@ -694,7 +694,7 @@ package leader
 
 //@ func (e *kvElection) heartbeatLoop(ctx)
 //@   tags C03 C12 C05 C01 C07
-//@   flag spawn_exempt:heartbeatLoop$1
+//@   flag spawn_exempt:@KeyValue.Update
 //@   requires C09.nil_ctx: ctx != nil
 //@   requires C01.term_started: e.revSet
 //@   ghost streak Int = 0
@@ -713,7 +713,7 @@ package leader
 //@   ghost leaderThisTick Bool = false
 //@   on recv ticker set leaderThisTick = false
 //@   on load kvElection.isLeader as l set leaderThisTick = l.value
-//@   on spawn heartbeatLoop$1 assert C06+C03+C07.refresh_only_while_leader: leaderThisTick
+//@   on call KeyValue.Update assert C06+C03+C07.refresh_only_while_leader: leaderThisTick
 //@   on call HealthChecker.Check assert C12.health_only_while_leader: leaderThisTick
 //@   on recv ticker set failed = false
 //@   on recv ticker set classified = false
@@ -724,7 +724,7 @@ package leader
 //@   ghost unhealthyThisTick Bool = false
 //@   on recv ticker set unhealthyThisTick = false
 //@   on ret HealthChecker.Check as c set unhealthyThisTick = !c.result
-//@   on spawn heartbeatLoop$1 assert C12.unhealthy_tick_skips_refresh: !unhealthyThisTick
+//@   on call KeyValue.Update assert C12.unhealthy_tick_skips_refresh: !unhealthyThisTick
 //@   on ret HealthChecker.Check as c set streak = c.result ? 0 : streak + 1
 //@   on call handleHealthCheckFailure assert C12.demote_exactly_at_threshold: streak == MaxHealth(e.cfg)
 //@   on call handleHealthCheckFailure set health_exhausted = streak >= MaxHealth(e.cfg)
@@ -885,9 +885,9 @@ package leader
 //@   on ret KeyValue.Get set got = true
 //@   on store kvElection.revision assert C07+C01.leader_never_adopts_observed_revision: !sawLeader
 //@   on store kvElection.leaderID as s assert C18.leader_never_adopts_observed_id: !sawLeader || s.value == e.cfg.InstanceID
-//@   ensures C06.vacancy_triggers_acquire: got && (getErr != nil || getEnt == nil || LenOf(EntryVal(getEnt)) == 0) ==> spawns(startAcquire$1) == 1
-//@   ensures C13.no_acquire_on_live_record: got && getErr == nil && getEnt != nil && LenOf(EntryVal(getEnt)) != 0 ==> spawns(startAcquire$1) == 0
-//@   ensures C06.leader_skips: !got ==> spawns(startAcquire$1) == 0
+//@   ensures C06.vacancy_triggers_acquire: got && (getErr != nil || getEnt == nil || LenOf(EntryVal(getEnt)) == 0) ==> scalls(attemptAcquireWithRetry) == 1
+//@   ensures C13.no_acquire_on_live_record: got && getErr == nil && getEnt != nil && LenOf(EntryVal(getEnt)) != 0 ==> scalls(attemptAcquireWithRetry) == 0
+//@   ensures C06.leader_skips: !got ==> scalls(attemptAcquireWithRetry) == 0
 //@   on call startAcquire as c assert C06+C09.acquire_bound_to_given_ctx: c.ctx == ctx
 //@   ensures C06.periodic_check_skipped_only_by_leader: !got ==> sawLeader
 
@@ -905,19 +905,19 @@ package leader
 //@   on store kvElection.leaderID as s assert C18.leader_never_adopts_observed_id: !sawLeader || s.value == e.cfg.InstanceID
 //@   on call becomeFollower set demote_cause = sawLeader && ParseOK(EntryVal(entry)) && IDOf(EntryVal(entry)) != e.cfg.InstanceID && revLoaded && EntryRev(entry) > ownRev
 //@   on ret becomeFollower as r set cleared = r.result
-//@   on spawn handleWatchEvent$1 assert C10.watch_gate: e.cfg.AllowPriorityTakeover && ParseOK(EntryVal(entry)) && e.cfg.Priority > PrioOf(EntryVal(entry))
+//@   on call attemptAcquire assert C10.watch_gate: e.cfg.AllowPriorityTakeover && ParseOK(EntryVal(entry)) && e.cfg.Priority > PrioOf(EntryVal(entry))
 //@   ghost ectx Int = 0
 //@   ghost acqCtx Int = 0
 //@   on load kvElection.ctx as l set ectx = l.value
 //@   on call startAcquire as c set acqCtx = c.ctx
 //@   on call startAcquire as c assert C06+C09.acquire_bound_to_election_ctx: c.ctx == ectx
-//@   ensures C06.vacancy_triggers_acquire: entry == nil || LenOf(EntryVal(entry)) == 0 ==> calls(startAcquire) == 1 && (acqCtx != nil ==> spawns(startAcquire$1) == 1)
-//@   ensures C13.no_acquire_on_live_record: entry != nil && LenOf(EntryVal(entry)) != 0 ==> spawns(startAcquire$1) == 0
+//@   ensures C06.vacancy_triggers_acquire: entry == nil || LenOf(EntryVal(entry)) == 0 ==> calls(startAcquire) == 1 && (acqCtx != nil ==> scalls(attemptAcquireWithRetry) == 1)
+//@   ensures C13.no_acquire_on_live_record: entry != nil && LenOf(EntryVal(entry)) != 0 ==> scalls(attemptAcquireWithRetry) == 0
 //@   ghost knownLeader Int = 0
 //@   on load kvElection.leaderID as l set knownLeader = l.value
-//@   ensures C10.reevaluates_each_event: entry != nil && LenOf(EntryVal(entry)) != 0 && ParseOK(EntryVal(entry)) && !sawLeader && knownLeader == IDOf(EntryVal(entry)) && e.cfg.AllowPriorityTakeover && e.cfg.Priority > PrioOf(EntryVal(entry)) ==> spawns(handleWatchEvent$1) == 1
-//@   ensures C10.no_takeover_attempt_otherwise: spawns(handleWatchEvent$1) == 1 ==> e.cfg.AllowPriorityTakeover && ParseOK(EntryVal(entry)) && e.cfg.Priority > PrioOf(EntryVal(entry))
-//@   ensures C13.ignore_unparsable: entry != nil && LenOf(EntryVal(entry)) != 0 && !ParseOK(EntryVal(entry)) ==> calls(becomeFollower) == 0 && spawns(handleWatchEvent$1) == 0
+//@   ensures C10.reevaluates_each_event: entry != nil && LenOf(EntryVal(entry)) != 0 && ParseOK(EntryVal(entry)) && !sawLeader && knownLeader == IDOf(EntryVal(entry)) && e.cfg.AllowPriorityTakeover && e.cfg.Priority > PrioOf(EntryVal(entry)) ==> scalls(attemptAcquire) == 1
+//@   ensures C10.no_takeover_attempt_otherwise: scalls(attemptAcquire) == 1 ==> e.cfg.AllowPriorityTakeover && ParseOK(EntryVal(entry)) && e.cfg.Priority > PrioOf(EntryVal(entry))
+//@   ensures C13.ignore_unparsable: entry != nil && LenOf(EntryVal(entry)) != 0 && !ParseOK(EntryVal(entry)) ==> calls(becomeFollower) == 0 && scalls(attemptAcquire) == 0
 //@   ghost demoteSet Bool = false
 //@   on load kvElection.onDemote as l set demoteSet = l.value != nil
 //@   ensures C08.demote_iff_claim_cleared: calls(onDemote) == ((cleared && demoteSet) ? 1 : 0)
@@ -974,8 +974,8 @@ package leader
 //@   tags C11 C20 C09
 //@   ghost sawLeader Bool = false
 //@   on load kvElection.isLeader as l set sawLeader = l.value
-//@   ensures C11.reconnect_verifies: sawLeader ==> spawns(handleReconnect$1) == 1
-//@   ensures C11.follower_no_verification: !sawLeader ==> spawns(handleReconnect$1) == 0
+//@   ensures C11.reconnect_verifies: sawLeader ==> scalls(verifyLeadershipAfterReconnect) == 1
+//@   ensures C11.follower_no_verification: !sawLeader ==> scalls(verifyLeadershipAfterReconnect) == 0
 
 //@ func (e *kvElection) verifyLeadershipAfterReconnect()
 //@   tags C11 C01
@@ -1147,8 +1147,7 @@ package leader
 //@   on send set pending = false
 //@   on backedge 0 assert C14.every_entry_forwarded: !pending
 //@   on makechan assert C14.updates_stable: inonce()
-//@   on spawn Updates$1 assert C14.updates_stable: inonce()
-//@   on spawn Updates$1$1 assert C14.updates_stable: inonce()
+//@   on spawn assert C14.updates_stable: inonce()
 //@ func (a *natsWatcherAdapter) Stop()
 //@   tags C14
 //@   on call nats.KeyWatcher.Stop as c assert C14.stop_passthrough: c.recv == a.watcher
@@ -1158,8 +1157,7 @@ package leader
 //@   tags C14 C20
 //@   flag spawn_exempt
 //@   on makechan assert C14.updates_stable: inonce()
-//@   on spawn Updates$1 assert C14.updates_stable: inonce()
-//@   on spawn Updates$1$1 assert C14.updates_stable: inonce()
+//@   on spawn assert C14.updates_stable: inonce()
 
 // ===========================================================================
 // internal/natsmock: the reference store model satisfies the store contract (C14)
